@@ -483,6 +483,33 @@ func init() {
 			y := lo(ex, fr, cc, []Value{a[1]}).(VStr)
 			return VBool{ex.strEq(x, y)}
 		}
+		// bytes.EqualFold on byte-level values: exact for ASCII contents (simple case folding of letters); contents with
+		// bytes >= 0x80 (multi-byte / invalid UTF-8 folding) are not modelled
+		m["bytes.EqualFold"] = func(ex *Exec, fr *frame, cc *ssa.CallCommon, a []Value) Value {
+			x, ok1 := ex.byteTerms(a[0])
+			y, ok2 := ex.byteTerms(a[1])
+			if !ok1 || !ok2 {
+				panic(unsupported{"bytes.EqualFold on identity-only values"})
+			}
+			ascii := BoolC(true)
+			for _, b := range append(append([]Term{}, x...), y...) {
+				ascii = And(ascii, Lt(b, IntC(128)))
+			}
+			if !ex.decide(ascii) {
+				panic(unsupported{"bytes.EqualFold on non-ASCII bytes"})
+			}
+			if len(x) != len(y) {
+				return VBool{BoolC(false)}
+			}
+			fold := func(b Term) Term {
+				return Ite(And(Ge(b, IntC('A')), Le(b, IntC('Z'))), Add(b, IntC(32)), b)
+			}
+			eq := BoolC(true)
+			for i := range x {
+				eq = And(eq, Eq(fold(x[i]), fold(y[i])))
+			}
+			return VBool{ex.nameT(eq)}
+		}
 		m["strings.TrimPrefix"] = func(ex *Exec, fr *frame, cc *ssa.CallCommon, a []Value) Value {
 			s, p := a[0].(VStr), cstr(a[1])
 			if s.Conc != nil {
